@@ -314,3 +314,114 @@ class ConfigGet:
 class GenerateConfigContent:
     def ensures(preset, result):
         return True
+
+
+# =================================================================== loading: the user's file merged over the defaults
+# Property text: "every accepted value is returned unchanged by `config get` and survives a YAML or JSON save/load round
+# trip": what `config get` prints is the LOADED configuration, i.e. the user's file merged over DEFAULT_CONFIG. Hence: for
+# every key present in the user's file the user's value wins, whatever its truthiness (0, false, "" are values); two
+# dicts under the same key are merged recursively by the same rule; keys the user does not mention keep the default.
+from pyvc.api import Assoc, lemma as _lemma, ih, as_items  # noqa: E402
+from contracts.c05_parse import dict_items, yaml_doc, json_doc, file_of, suffix_lower  # noqa: E402
+from contracts.c05_config import norm_fold  # noqa: E402
+
+
+def merge_fold(items: Assoc(Any), acc: Dict) -> Dict:
+    """override's items applied left to right to a copy of base: a dict over a dict is merged recursively, any other
+    value of the override replaces the base value."""
+    if len(items) == 0:
+        return acc
+    return merge_fold(items[1:], dict_put(acc, items[0][0],
+                                          merge_fold(dict_items(items[0][1]), acc[items[0][0]])
+                                          if items[0][0] in acc and isinstance(acc[items[0][0]], dict) and isinstance(items[0][1], dict)
+                                          else items[0][1]))
+
+
+@contract(CF + "merge_configs", props=["C20"], types=dict(base=Dict, override=Assoc(Any), result=Dict, key=Str, value=Any),
+          returns=Dict, effects=[])
+class MergeConfigs:
+    def ensures_override_wins_key_by_key(base, override, result):
+        return result == merge_fold(as_items(override), base)
+
+    def inv0(base, override, result, rest):
+        return merge_fold(override, base) == merge_fold(rest, result)
+
+    # inputs from the property's own quantifier ("every accepted value ... whatever its truthiness", nested sections):
+    # run natively on the real function whenever the solver cannot decide / refutes a proof obligation of this unit
+    def witness_falsy_user_values_over_defaults():
+        return {"base": {"max_retries": 3, "greeting": "Hello", "verbose": True, "timeout": 30},
+                "override": [("max_retries", 0), ("greeting", ""), ("verbose", False)]}  # (Assoc: list of items)
+
+    def witness_nested_sections_are_merged():
+        return {"base": {"a": 1, "b": {"c": 2, "d": 3}}, "override": [("b", {"d": 0, "e": None}), ("f", [])]}
+
+
+def has_key(items: Assoc(Any), k: Str) -> Bool:
+    return len(items) > 0 and (items[0][0] == k or has_key(items[1:], k))
+
+
+def merged_value(cur, v):
+    """What one entry `k: v` of the user's file makes of the current value under k: v itself -- whatever its
+    truthiness -- unless both are dicts, which are merged by the same rule."""
+    return merge_fold(dict_items(v), cur) if isinstance(cur, dict) and isinstance(v, dict) else v
+
+
+def final_value(items: Assoc(Any), k: Str, cur: Any) -> Any:
+    """The value under k after all entries of the user's file have been applied (cur: the value so far, None if absent)."""
+    if len(items) == 0:
+        return cur
+    return final_value(items[1:], k, merged_value(cur, items[0][1]) if items[0][0] == k else cur)
+
+
+def real_values(items: Assoc(Any)) -> Bool:
+    """Every value of the user's document is a real value (not the 'key absent' marker of the dict model)."""
+    return len(items) == 0 or ("k" in dict_put({}, "k", items[0][1]) and real_values(items[1:]))
+
+
+@_lemma(props=["C20"], types=dict(items=Assoc(Any), acc=Dict, k=Str), name="merge-user-value-wins")
+def merge_user_value_wins(items, acc, k):
+    """Per key k: the merged config has k iff the user's file or the base has it; its value is what the user's entries
+    for k make of the base value (final_value: each user entry replaces the value, falsy or not; dict over dict merges);
+    a key the user does not mention keeps the base value."""
+    if not real_values(items):
+        return True
+    r = merge_fold(items, acc)
+    if len(items) == 0:
+        return r == acc
+    ih(merge_user_value_wins, items[1:],
+       dict_put(acc, items[0][0], merged_value(acc[items[0][0]] if items[0][0] in acc else None, items[0][1])), k)
+    return (k in r) == (has_key(items, k) or k in acc) \
+        and implies(k in r, r[k] == final_value(items, k, acc[k] if k in acc else None))
+
+
+@contract(CF + "_load_config_file", props=["C20"], types=dict(path=PathT), returns=Dict, raises=["ConfigError"], no_selftest=True)
+class LoadConfigFile:
+    """Any failure to read or parse the file is reported as ConfigError."""
+
+    def requires(path):
+        return isinstance(yaml_doc(file_of(path)), dict) or yaml_doc(file_of(path)) is None
+
+    def ensures(path, result):
+        return True
+
+
+DEFAULTS = {"app_name": "{{PROJECT_NAME}}", "version": "0.1.0", "log_level": "INFO", "output_format": "text",
+            "greeting": "Hello", "max_retries": 3, "timeout": 30}
+
+
+@contract(CF + "_load_and_merge_config", props=["C20"], types=dict(config_path=PathT, config=Dict, user_config=Dict), returns=Dict,
+          raises=["ConfigError"], no_selftest=True, inline=["_load_config_file"])
+class LoadAndMergeConfig:
+    """The loaded configuration is the user's file (parsed, top-level keys normalised) merged over DEFAULT_CONFIG."""
+
+    def requires(config_path):
+        return isinstance(yaml_doc(file_of(config_path)), dict) or yaml_doc(file_of(config_path)) is None
+
+    def ensures_yaml_file_merged_over_the_defaults(config_path, result):
+        return implies(suffix_lower(config_path) in (".yaml", ".yml"),
+                       result == merge_fold(dict_items(norm_fold(dict_items(
+                           yaml_doc(file_of(config_path)) if yaml_doc(file_of(config_path)) is not None else {}), {})), DEFAULTS))
+
+    def ensures_json_file_merged_over_the_defaults(config_path, result):
+        return implies(suffix_lower(config_path) == ".json",
+                       result == merge_fold(dict_items(norm_fold(dict_items(json_doc(file_of(config_path))), {})), DEFAULTS))
